@@ -105,6 +105,9 @@ def small_bodies() -> list[dict[str, Any]]:
         if an is not None: b['metadata']['annotations'] = dict(an)
         if st is not None: b['status'] = copy.deepcopy(st)
         out.append(b)
+        if len(out) % 7 == 3:      # ... and as a ReplicaSet owned by a Deployment (the framework marks its own keys on those), among the others
+            b2 = copy.deepcopy(b); b2['kind'] = 'ReplicaSet'; b2['metadata']['ownerReferences'] = [{'kind': 'Deployment', 'name': 'd', 'uid': 'u0'}]
+            out.append(b2)
     return out
 
 
@@ -189,6 +192,11 @@ def build_essence_records(quick: bool, seed: int) -> list[dict[str, Any]]:
             old_ = cfg['diffbase'].fetch(body=_bodies.Body(copy.deepcopy(echoed)))
             recs.append({'kind': 'echo', 'cfg': name, 'hasold': old_ is not None, 'old': enc(old_ if old_ is not None else {}),
                          'new': enc(essence(cfg, echoed))})
+            # ... also for the next operator process (a storage that has served nothing yet): what this one wrote is found by that one
+            fresh = configs()[name]
+            old2 = fresh['diffbase'].fetch(body=_bodies.Body(copy.deepcopy(echoed)))
+            recs.append({'kind': 'echo', 'cfg': name + '+restart', 'hasold': old2 is not None, 'old': enc(old2 if old2 is not None else {}),
+                         'new': enc(essence(fresh, echoed))})
             for ename, b2 in visible_edits(body):
                 recs.append({'kind': 'visible', 'cfg': name, 'write': ename, 'before': enc(before), 'after': enc(essence(cfg, b2))})
     # another Kopf-based operator writes; this operator (default configuration) must not see it
